@@ -171,6 +171,23 @@ def rule_b_find(ctx):
                     if hash_main is not None and h2 is not None and h2.key() != hash_main.key():
                         R.viol(key + ":hash", c2.where(), "old-table lookup uses a different hash value than the main-table lookup")
                     old_finds.add(c2.loc.bb)
+                else:
+                    # the old-table lookup sits in a closure handed to a combinator on the pending-resize field
+                    # (`self.leftovers.as_ref().and_then(|lo| lo.table.find(hash, eq))`): the combinator call consults the old table
+                    # whenever one is pending, provided the closure performs the lookup on every path
+                    if not all(c2.loc.bb == rb or c2.loc.bb in b2.dom().get(rb, set()) for rb in b2.return_blocks()):
+                        continue
+                    for c3 in ctx.calls(body):
+                        if c3.name in (OPT + "and_then", OPT + "map", OPT + "map_or", OPT + "map_or_else") and b2 in c3.closure_args() and not body.is_cleanup(c3.loc.bb):
+                            src = c3.arg_path(0)
+                            sd = body.source_def(c3.args[0])
+                            from_left = src is not None and ctx.roles.is_left_place(src)
+                            if sd is not None and sd[1] == "call":
+                                sc = ctx.call_at(body, sd[0].bb)
+                                if sc.name in (OPT + "as_ref", OPT + "as_mut") and sc.arg_path(0) is not None and ctx.roles.is_left_place(sc.arg_path(0)):
+                                    from_left = True
+                            if from_left:
+                                old_finds.add(c3.loc.bb)
         edges = left_test_edges(ctx, body)
         ok_edges = {e for e, v in edges.items() if v == N}
         w = _must_pass(body, miss_starts, old_finds, ok_edges)
